@@ -175,6 +175,16 @@ def upsampled(run, np, srs, rng, step_terms, pi, point, quantity, offset, upwind
             continue
         hist = resp["hist"]
         bad = None
+        if roll in rollfn and u["k"] > 1:
+            # the length a resampling method returns (kM, k(M - M mod 2), kM - 1) is the method's own business: the property speaks of
+            # the rate and of the window of the RESAMPLED record.  Take the observed length from the public resampler; a
+            # length other than the spec's UpLen is a deviation from the growth spec, the window laws are checked on what was returned
+            up_, sr_ = rollfn[roll](sig, float(sr), ppc, float(fmax))
+            if up_.shape[0] != u["M"]:
+                run.deviation("Srs.UpLen", "%s returns %d samples for a record of %d at factor %d, the spec's length rule says %d" % (
+                    rollfn[roll].__name__, up_.shape[0], M, u["k"], u["M"]), {"rolloff": roll, "M": M, "k": u["k"]})
+                tail = u["N"] - u["M"]
+                u = dict(u, M=up_.shape[0], N=up_.shape[0] + tail, S=(up_.shape[0] if u["S"] else 0))
         if resp["sr"] != float(u["sr"]):
             bad = "resp['sr'] = %r, the index model says %r (factor %d)" % (resp["sr"], u["sr"], u["k"])
         elif hist.shape != (u["N"] - u["S"], H, len(freq)):
